@@ -459,6 +459,14 @@ impl WorldA {
                     c.unrel_queue.push(ix);
                 }
             }
+            // C11: a reliable broadcast reaches every connected client; one whose channel cannot take it is disconnected for
+            // it (as send_message would do), never left connected with a hole in its stream
+            if alive && !can && kind != UNREL {
+                obs.count("oracle.C11.broadcast_never_skips_silently");
+                if self.ep_alive(i, SV) {
+                    obs.violate("C11", "broadcast-skipped-connected-client", super::model::kind_name(kind), format!("conn {} channel {} len {}: still connected, message not queued", i, cid, bytes.len()));
+                }
+            }
             if !self.ep_alive(i, SV) {
                 self.note_disconnect(i, SV, obs);
             }
